@@ -528,7 +528,7 @@ func (x *Exec) callMods(c *ssa.CallCommon, li *loopInfo, seen map[*ssa.Function]
 		return
 	}
 	if c.IsInvoke() {
-		switch c.Method.FullName() {
+		switch normMethodName(c.Method.FullName()) {
 		case "(io.Reader).Read":
 			li.modHeap["E:byte"] = true
 			return
@@ -762,6 +762,19 @@ func (x *Exec) loopClauses(li *loopInfo) ([]Clause, *Clause) {
 func (x *Exec) loopEnv(st *State, li *loopInfo) *CEnv {
 	env := x.contractEnv(st, nil, st.entry)
 	fr := st.top()
+	// the innermost enclosing loop with a snapshot: outer(e)
+	var encl *loopInfo
+	for _, l := range x.loops {
+		if l != li && l.blocks[li.head] && (encl == nil || len(l.blocks) < len(encl.blocks)) {
+			encl = l
+		}
+	}
+	if encl != nil {
+		if vis := fr.loopSeen[encl.head]; vis != nil && vis.snap != nil && vis.snap != st {
+			env.outer = x.loopEnv(vis.snap, encl)
+			env.outer.st = nil
+		}
+	}
 	// all local cells by source name; innermost/latest declaration wins unless ambiguous
 	x.bindLocals(env, fr, li)
 	if li.isRange {
